@@ -378,18 +378,45 @@ def normalize_url(
                 segments.pop()
                 path = "/".join(segments)
 
+    # Normalizing AMP subdomains & dropping irrelevant subdomains
+    # NOTE: until nothing changes, since "amp-www.lemonde.fr" hides a "www."
+    # and "www.amp-lemonde.fr" hides an "amp-"
+    while hostname:
+        previous_hostname = hostname
+
+        # NOTE: a host made only of irrelevant parts ("www.", "amp-") keeps the
+        # last one, else nothing would be left of it
+        if normalize_amp and hostname.startswith("amp-") and len(hostname) > 4:
+            hostname = hostname[4:]
+
+        if strip_irrelevant_subdomains:
+            stripped_hostname = re.sub(
+                IRRELEVANT_SUBDOMAIN_AMP_RE
+                if normalize_amp
+                else IRRELEVANT_SUBDOMAIN_RE,
+                "",
+                hostname,
+            )
+
+            if stripped_hostname:
+                hostname = stripped_hostname
+
+        if hostname == previous_hostname:
+            break
+
     # Dropping irrelevant query items
     qsl = []
 
     if query:
         domain_filter = None
 
-        if splitted.hostname:
+        # NOTE: matching the hostname once its irrelevant parts were dropped
+        if hostname:
             domain_filter = next(
                 (
                     f
                     for d, f in PER_DOMAIN_QUERY_FILTERS
-                    if splitted.hostname.endswith(d)
+                    if hostname == d or hostname.endswith("." + d)
                 ),
                 None,
             )
@@ -418,32 +445,6 @@ def normalize_url(
     # Always dropping trailing slash with empty query & fragment
     if path == "/" and not fragment and not query:
         path = ""
-
-    # Normalizing AMP subdomains & dropping irrelevant subdomains
-    # NOTE: until nothing changes, since "amp-www.lemonde.fr" hides a "www."
-    # and "www.amp-lemonde.fr" hides an "amp-"
-    while hostname:
-        previous_hostname = hostname
-
-        # NOTE: a host made only of irrelevant parts ("www.", "amp-") keeps the
-        # last one, else nothing would be left of it
-        if normalize_amp and hostname.startswith("amp-") and len(hostname) > 4:
-            hostname = hostname[4:]
-
-        if strip_irrelevant_subdomains:
-            stripped_hostname = re.sub(
-                IRRELEVANT_SUBDOMAIN_AMP_RE
-                if normalize_amp
-                else IRRELEVANT_SUBDOMAIN_RE,
-                "",
-                hostname,
-            )
-
-            if stripped_hostname:
-                hostname = stripped_hostname
-
-        if hostname == previous_hostname:
-            break
 
     # Dropping scheme
     if strip_protocol or not has_protocol:
